@@ -22,6 +22,7 @@ import itertools
 import numpy
 
 from . import core
+from . import forms
 
 NEVER = 7                       # never occurs in any generated array
 POOLS = ([0, 1, 2, 3, 5], [0, 1, 2, 3, 5], [-1, 0, 1, 2, -3])
@@ -63,9 +64,166 @@ def spec_of(idx):
     return {"entries": ents, "common": int(idx.common), "shape": [int(s) for s in idx.shape]}
 
 
-def build(impl, spec):
-    ents = {tuple(k): numpy.array(rows, dtype=U32) for k, rows in spec["entries"]}
-    return impl.iindex(ents, spec["common"], tuple(spec["shape"]))
+# --------------------------------------------------------------------------------------------
+# FORM of the arguments (dtype / memory layout / container type), content unchanged: harness/forms.py
+# --------------------------------------------------------------------------------------------
+# Forms the UNCHANGED library does not handle (established by running with IIDX_FORMS_ALL=1; see notes, FORM FINDINGS /
+# rule text): they are not generated.  Everything else below is generated in about half of the steps.
+import collections as _collections
+FORM_TAGS = _collections.Counter()      # form tags used in this run (evidence)
+
+FORMS_OFF = {
+    # rejected by the library (raise TypeError / AttributeError / ValueError / IndexError): documented argument types only
+    "scalar:sliced-int",              # sliced(numpy.int64(1)): `type(order) is int` is the documented test for a single slice
+    "seq:sliced-order:ndarray",       # sliced(numpy.array([1, 0])): needs order.index -> AttributeError
+    "mask:list", "mask:int8",         # filtered: "boolean array row mask"
+    # NumPy scalars that end up as index coordinates / common / shape: validate() itself rejects them ("contains NumPy
+    # coordinate", "shape with wrong types") - candidate FORM FINDINGS, see notes; not generated
+    "scalar:iindex-common", "scalar:from_array-common", "scalar:shift_common-v", "scalar:new_common",
+    "scalar:filtered-new_length", "mapping:reindexed:numpy-values", "mapping:from_array-mapping:numpy-values",
+}
+
+
+class Forms:
+    """Chooses, from a recorded seed, the form of every argument of one step.  seed None = ordinary forms only.
+    The content never changes, so literals and oracles are computed from the ordinary form."""
+
+    def __init__(self, seed, p=0.5):
+        import os
+        import random
+        self.rng = None if seed is None else random.Random(seed)
+        self.p = p
+        self.tags = []
+        self.all = bool(os.environ.get("IIDX_FORMS_ALL"))
+
+    def ok(self, kind):
+        return self.rng is not None and (self.all or kind not in FORMS_OFF)
+
+    def note(self, arg, tag):
+        self.tags.append("%s=%s" % (arg, tag))
+
+    def rowids(self, rows, arg, allow=("view",)):
+        """uint32 contiguous | non-contiguous uint32 view (a column of a 2-D log / every other element) | int64 | list."""
+        a = numpy.array(rows, dtype=U32)
+        if self.rng is None or self.rng.random() >= self.p:
+            return a
+        kind = self.rng.choice([k for k in allow if self.ok("rowids:" + k)] or ["contiguous"])
+        if kind == "view":
+            if self.rng.random() < 0.5:
+                big = numpy.zeros((len(a), 2), dtype=U32)
+                big[:, 0] = a
+                big[:, 1] = 0xFFFFFFFF
+                a, kind = big[:, 0], "uint32-column-view"
+            else:
+                big = numpy.full(2 * len(a), 0xFFFFFFFF, dtype=U32)
+                big[::2] = a
+                a, kind = big[::2], "uint32-every-other-view"
+        elif kind == "int64":
+            a = numpy.array(rows, dtype=numpy.int64)
+        elif kind == "list":
+            a = [int(r) for r in rows]
+        elif kind == "readonly":
+            a.setflags(write=False)
+        self.note(arg, kind)
+        return a
+
+    def scalar(self, v, arg):
+        if v is None or not self.ok("scalar:" + arg):
+            return v
+        w, tag = forms.scalar_int(self.rng, int(v), self.p)
+        if tag != "python-int":
+            self.note(arg, tag)
+        return w
+
+    def seq(self, xs, arg, kinds=("tuple", "range", "ndarray"), scalar_items=False):
+        xs = list(xs)
+        if self.rng is None or self.rng.random() >= self.p:
+            return xs
+        kind = self.rng.choice([k for k in kinds if self.ok("seq:%s:%s" % (arg, k))] or ["list"])
+        out = xs
+        if kind == "range":
+            step = (xs[1] - xs[0]) if len(xs) > 1 else 1
+            if xs and step != 0 and list(range(xs[0], xs[0] + step * len(xs), step)) == xs:
+                out = range(xs[0], xs[0] + step * len(xs), step)
+            else:
+                out, kind = tuple(xs), "tuple"
+        elif kind == "tuple":
+            out = tuple(xs)
+        elif kind == "ndarray":
+            if xs:
+                out = numpy.array(xs, dtype=self.rng.choice(forms.int_dtypes_holding(xs)))
+                kind = "ndarray(%s)" % out.dtype
+            else:
+                kind = "list"
+        elif kind == "list" and scalar_items and self.ok("seq:%s:numpy-scalar-items" % arg) and xs:
+            out = [forms.scalar_int(self.rng, x, 0.7)[0] for x in xs]
+            kind = "list-of-numpy-scalars"
+        if kind != "list":
+            self.note(arg, kind)
+        return out
+
+    def mapping(self, m, arg):
+        """dict | OrderedDict | defaultdict, with Python-int or NumPy-scalar keys / values."""
+        if m is None or self.rng is None:
+            return m
+        d = dict(m)
+        tag = []
+        if self.ok("mapping:%s:numpy-keys" % arg) and self.rng.random() < self.p / 2:
+            d = {forms.scalar_int(self.rng, k, 0.8)[0]: v for k, v in d.items()}
+            tag.append("numpy-scalar-keys")
+        if self.ok("mapping:%s:numpy-values" % arg) and self.rng.random() < self.p / 2:
+            d = {k: forms.scalar_int(self.rng, v, 0.8)[0] for k, v in d.items()}
+            tag.append("numpy-scalar-values")
+        if self.ok("mapping:%s:container" % arg):
+            d, t = forms.mapping(self.rng, d, self.p)
+            if t != "dict":
+                tag.append(t)
+        if tag:
+            self.note(arg, "+".join(tag))
+        return d
+
+    def mask(self, mask, arg="mask"):
+        m = numpy.array(mask, dtype=bool)
+        if self.rng is None or self.rng.random() >= self.p:
+            return m
+        kind = self.rng.choice([k for k in ("strided", "readonly", "list", "int8") if self.ok("mask:" + k)] or ["bool-ndarray"])
+        if kind == "strided":
+            big = numpy.zeros(2 * len(m), dtype=bool)
+            big[1::2] = True
+            big[::2] = m
+            m = big[::2]
+        elif kind == "readonly":
+            m.setflags(write=False)
+        elif kind == "list":
+            m = [bool(x) for x in mask]
+        elif kind == "int8":
+            m = numpy.array(mask, dtype=numpy.int8)
+        self.note(arg, kind)
+        return m
+
+    def array(self, a, arg="array"):
+        """An integer array in any integer dtype that holds it, C / Fortran / strided / read-only, or nested lists."""
+        a = numpy.asarray(a)
+        if self.rng is None:
+            return a
+        if self.ok("array:list") and a.size and self.rng.random() < self.p / 4:
+            self.note(arg, "list")
+            return a.tolist()
+        if self.ok("array:dtype+layout"):
+            b, tag = forms.int_array(self.rng, a, self.p)
+            if tag != "%s/c-contiguous" % a.dtype:
+                self.note(arg, tag)
+            return b
+        return a
+
+
+def build(impl, spec, F=None):
+    """The real index of an abstract state; F chooses the form of its row-id arrays and of its common value."""
+    if F is None:
+        ents = {tuple(k): numpy.array(rows, dtype=U32) for k, rows in spec["entries"]}
+        return impl.iindex(ents, spec["common"], tuple(spec["shape"]))
+    ents = {tuple(k): F.rowids(rows, "iindex-entry", allow=("view", "readonly", "list")) for k, rows in spec["entries"]}
+    return impl.iindex(ents, F.scalar(spec["common"], "iindex-common"), tuple(spec["shape"]))
 
 
 def densify(spec):
@@ -309,12 +467,12 @@ def gen_operand(rng, impl, shape, vals, sparse_base=None):
     if sparse_base is not None:
         a = rand_arr_sparse(rng, shape, vals, sparse_base if rng.random() < 0.7 else None)
         if rng.random() < 0.4 and a.size:
-            return spec_of(impl.iindex.from_array(a)), a
+            return spec_of(impl.iindex.from_array(Forms(rng.randrange(1 << 30)).array(a))), a
         return direct_spec(rng, a, dominant(a, sparse_base) if rng.random() < 0.8 else rng.choice(vals + [NEVER])), a
     a = rand_arr(rng, shape, vals)
     common = rng.choice(vals + [NEVER])
     if rng.random() < 0.3 and a.size and len(shape) <= 2:
-        idx = impl.iindex.from_array(a)        # library-chosen common
+        idx = impl.iindex.from_array(Forms(rng.randrange(1 << 30)).array(a))        # library-chosen common
         return spec_of(idx), a
     return direct_spec(rng, a, common), a
 
@@ -343,16 +501,21 @@ def gen_init(rng, impl, dims3=False):
         shape = (n,) if nc is None else (n, nc)
     a = rand_arr(rng, shape, vals)
     via = "direct"
+    init_forms = []
     if not dims3 and rng.random() < 0.5:
         cm = rng.choice([None, None, 0, 1, NEVER])
         if cm is None and a.size == 0:
             cm = 0
-        idx = impl.iindex.from_array(a) if cm is None else impl.iindex.from_array(a, common=cm)
+        F = Forms(rng.randrange(1 << 30) if rng.random() < 0.6 else None)
+        fa = F.array(a)
+        idx = impl.iindex.from_array(fa) if cm is None else impl.iindex.from_array(fa, common=F.scalar(cm, "from_array-common"))
         spec = spec_of(idx)
-        via = "from_array(common=%r)" % (cm,)
+        via = "from_array(common=%r)" % (cm,) + (" [forms: %s]" % ", ".join(F.tags) if F.tags else "")
+        init_forms = list(F.tags)
     else:
         spec = direct_spec(rng, a, rng.choice(vals + [NEVER]))
-    return {"array": a.tolist(), "shape": list(shape), "via": via, "spec": spec, "vals": vals}
+    return {"array": a.tolist(), "shape": list(shape), "via": via, "spec": spec, "vals": vals, "forms": init_forms,
+            "fseed": rng.randrange(1 << 30) if rng.random() < 0.6 else None}
 
 
 def group_cells(rng, cells):
@@ -370,6 +533,14 @@ def rand_cell(rng, a):
 
 
 def gen_op(rng, impl, idx, a, vals, scale=False):
+    """_gen_op + in 60 % of the steps a seed from which run_step chooses the FORM of every argument (class Forms)."""
+    op = _gen_op(rng, impl, idx, a, vals, scale)
+    if rng.random() < 0.6:
+        op["fseed"] = rng.randrange(1 << 30)
+    return op
+
+
+def _gen_op(rng, impl, idx, a, vals, scale=False):
     """Choose the next operation and its arguments from the current REAL state (idx, dense a).
     scale: the stream over indexes of hundreds of rows (operation mix and argument sizes adapted, see notes)."""
     nd = a.ndim
@@ -587,18 +758,20 @@ def run_step(impl, idx, a, op):
     recv_snap = snap(idx)
     mutates = o in ("shift", "shiftv", "append", "update", "union", "inter", "diff", "set_if")
     result = idx
+    F = Forms(op.get("fseed"))
+    st.forms = F.tags
     try:
         if o == "shift":
             idx.shift_common()
             st.expect = a
             st.libchosen = True
         elif o == "shiftv":
-            idx.shift_common(op["v"])
+            idx.shift_common(F.scalar(op["v"], "shift_common-v"))
             st.expect = a
             if idx.common != op["v"]:
                 st.problems.append(("C06", "shift_common:common-not-set", "common is %r after shift_common(%r)" % (idx.common, op["v"])))
         elif o == "append":
-            other = build(impl, op["other"])
+            other = build(impl, op["other"], F)
             operands.append(("other", other, snap(other)))
             st.expect = numpy.concatenate([a, densify(op["other"])])
             st.libchosen = True
@@ -606,7 +779,7 @@ def run_step(impl, idx, a, op):
             if shares(arrays_of(idx), arrays_of(other)):
                 st.problems.append(("C06", "append:aliases-operand", "receiver shares row-id storage with the appended index"))
         elif o == "update":
-            ents = np_entries(op["entries"])
+            ents = {tuple(k): F.rowids(rows, "update-rowids", allow=("view", "int64", "list", "readonly")) for k, rows in op["entries"]}
             operands.append(("entries", ents, snap(ents)))
             b = a.copy()
             for k, rows in op["entries"]:
@@ -617,7 +790,10 @@ def run_step(impl, idx, a, op):
             if shares(arrays_of(idx), arrays_of(ents)):
                 st.problems.append(("C06", "update:aliases-operand", "receiver shares row-id storage with the update dict"))
         elif o in ("union", "inter", "diff"):
-            ents = np_entries(op["other"])
+            if op.get("as_index"):
+                ents = {tuple(k): F.rowids(rows, "setop-index-rowids", allow=("view", "readonly")) for k, rows in op["other"]}
+            else:
+                ents = {tuple(k): (None if rows is None else F.rowids(rows, "setop-dict-rowids", allow=("view", "int64", "list", "readonly"))) for k, rows in op["other"]}
             other = impl.iindex({k: v for k, v in ents.items()}, rng_common(op), tuple(st.before["shape"])) if op.get("as_index") else ents
             operands.append(("other", other, snap(other)))
             cur = {tuple(k): set(rows) for k, rows in st.before["entries"]}
@@ -640,7 +816,7 @@ def run_step(impl, idx, a, op):
             st.exp_entries = {k: sorted(v) for k, v in exp.items() if v}
         elif o == "set_if":
             key = tuple(op["key"])
-            val = None if op["value"] is None else numpy.array(op["value"], dtype=U32)
+            val = None if op["value"] is None else F.rowids(op["value"], "set_if-value", allow=("view", "readonly"))
             cur = {tuple(k): rows for k, rows in st.before["entries"]}
             if op["value"]:
                 cur[key] = list(op["value"])
@@ -659,7 +835,7 @@ def run_step(impl, idx, a, op):
             mask = numpy.array(op["mask"], dtype=bool)
             st.expect = a[mask]
             st.libchosen = True
-            result = idx.filtered(mask, int(mask.sum()))
+            result = idx.filtered(F.mask(op["mask"]), F.scalar(int(mask.sum()), "filtered-new_length"))
             if shares(arrays_of(result), arrays_of(idx)):
                 st.problems.append(("C06", "filtered:shares-storage", "filtered() shares row-id storage with its source"))
         elif o == "reindexed":
@@ -669,7 +845,7 @@ def run_step(impl, idx, a, op):
                 listed = sorted({k[0] for k in dict.keys(idx)})
                 mm = {v: i for i, v in enumerate(listed)}
             st.expect = numpy.vectorize(lambda v: mm.get(v, v), otypes=[int])(a) if a.size else a
-            result = idx.reindexed(m, copy=op["copy"], shift=op["shift"])
+            result = idx.reindexed(F.mapping(m, "reindexed"), copy=op["copy"], shift=op["shift"])
             if op["copy"] and shares(arrays_of(result), arrays_of(idx)):
                 st.problems.append(("C06", "reindexed:shares-storage", "reindexed(copy=True) shares row-id storage with its source"))
         elif o == "collapsed":
@@ -688,22 +864,23 @@ def run_step(impl, idx, a, op):
                         out.append(op["prec"][-1])
                 st.expect = numpy.array(out, dtype=int)
                 st.libchosen = True
-            result = idx.collapsed(list(op["prec"]), m)
+            result = idx.collapsed(F.seq(op["prec"], "precedence", kinds=("tuple", "ndarray", "list"), scalar_items=True), F.mapping(m, "collapsed"))
         elif o == "sliced":
             orders = [x if (x is None or isinstance(x, int)) else list(x) for x in op["orders"]]
+            f_orders = [x if x is None else (F.scalar(x, "sliced-int") if isinstance(x, int) else F.seq(x, "sliced-order")) for x in orders]
             if len(orders) > a.ndim - 1:
                 st.expect_raise = "TypeError"
             else:
                 st.expect = take_orders(a, orders)
-            result = idx.sliced(*orders)
+            result = idx.sliced(*f_orders)
         elif o == "column_stack":
-            pre = [build(impl, s) for s in op["pre"]]
-            post = [build(impl, s) for s in op["post"]]
+            pre = [build(impl, s, F) for s in op["pre"]]
+            post = [build(impl, s, F) for s in op["post"]]
             for i, x in enumerate(pre + post):
                 operands.append(("input %d" % i, x, snap(x)))
             arrs = [densify(s) for s in op["pre"]] + [a] + [densify(s) for s in op["post"]]
             st.expect = numpy.concatenate([x if x.ndim == 2 else x[:, None] for x in arrs], axis=1)
-            result = impl.column_stack(pre + [idx] + post, new_common=op["new_common"], copy=op["copy"])
+            result = impl.column_stack(pre + [idx] + post, new_common=F.scalar(op["new_common"], "new_common"), copy=op["copy"])
             if op["new_common"] is not None and result.common != op["new_common"]:
                 st.problems.append(("C06", "column_stack:common-not-set", "common is %r" % (result.common,)))
             if op["copy"] and shares(arrays_of(result), [v for x in pre + [idx] + post for v in arrays_of(x)]):
@@ -731,7 +908,7 @@ def run_step(impl, idx, a, op):
                 st.problems.append(("C06", "%s:not-the-inverted-array" % o, "%s(force=True) = %r, inverted dense array: %r" % (o, got, want)))
             st.expect = a
         elif o == "common_rowids":
-            got = idx.common_rowids() if op["col"] is None else idx.common_rowids(op["col"])
+            got = idx.common_rowids() if op["col"] is None else idx.common_rowids(F.scalar(op["col"], "common_rowids-col"))
             st.obs = ("rows", [int(x) for x in got.tolist()])
             col = a if op["col"] is None else a[:, op["col"]]
             want = numpy.nonzero(col == idx.common)[0].tolist()
@@ -774,6 +951,7 @@ def run_step(impl, idx, a, op):
             w = py_wf(idx)
             if w:
                 st.problems.append(("C07", "%s:illformed-after-exception" % name, "receiver after the failed call: " + w))
+        tag_forms(st)
         return st
     st.after = spec_of(result)
     got = densify(st.after) if sane_for_densify(st.after) else None
@@ -803,7 +981,14 @@ def run_step(impl, idx, a, op):
             st.problems.append(("C06", "%s:operand-changed" % name, "%s was modified by the call" % label))
     if not mutates and snap(idx) != recv_snap:
         st.problems.append(("C06", "%s:receiver-changed" % name, "a non-mutating operation modified its receiver"))
+    tag_forms(st)
     return st
+
+
+def tag_forms(st):
+    FORM_TAGS.update(t.split("(")[0] for t in st.forms)
+    if st.forms and st.problems:
+        st.problems = [(p_, sig, text + "   [argument forms: %s]" % ", ".join(st.forms)) for (p_, sig, text) in st.problems]
 
 
 def rng_common(op):
@@ -930,7 +1115,10 @@ def run_history(impl, rng, max_steps, dims3=False, with_eq=True, own=None, pool=
         h.problems.append((-1, own or "C07", "init:construction-raised", "building the initial index raised %s: %s  %s" % (
             type(e).__name__, str(e)[:160], traceback.format_exc()[-500:])))
         return h
-    idx = build(impl, h.init["spec"])
+    F0 = Forms(h.init.get("fseed"))
+    idx = build(impl, h.init["spec"], F0)
+    h.init["forms"] = list(h.init.get("forms") or []) + list(F0.tags)
+    FORM_TAGS.update(t.split("(")[0] for t in h.init["forms"])
     a = numpy.array(h.init["array"], dtype=int).reshape(h.init["shape"])
     vals = h.init["vals"]
     w = py_wf(idx)
@@ -952,6 +1140,8 @@ def run_history(impl, rng, max_steps, dims3=False, with_eq=True, own=None, pool=
                                    "%s: %s while preparing/abstracting step %d: %s" % (type(e).__name__, str(e)[:160], len(h.steps), traceback.format_exc()[-600:])))
             break
         st.tainted = h.tainted_from is not None
+        if i == 0:
+            st.before_fseed = h.init.get("fseed")
         h.steps.append(st)
         for p in st.problems:
             h.problems.append((i,) + p)
@@ -998,16 +1188,17 @@ def run_history(impl, rng, max_steps, dims3=False, with_eq=True, own=None, pool=
 
 def history_json(h, upto=None):
     steps = h.steps if upto is None else h.steps[:upto + 1]
-    return {"init": {k: h.init[k] for k in ("array", "shape", "via", "spec")}, "ops": [s.op for s in steps]}
+    return {"init": {k: h.init.get(k) for k in ("array", "shape", "via", "spec", "fseed", "forms")}, "ops": [s.op for s in steps]}
 
 
 def one_step_repro(st):
-    return {"before": st.before, "op": st.op, "how": "idx = iindex({tuple(k): numpy.array(rows, dtype=numpy.uint32) for k, rows in before['entries']}, before['common'], tuple(before['shape'])); apply op"}
+    return {"before": st.before, "before_fseed": getattr(st, "before_fseed", None), "argument_forms": list(getattr(st, "forms", [])), "op": st.op, "how": "idx = iindex({tuple(k): numpy.array(rows, dtype=numpy.uint32) for k, rows in before['entries']}, before['common'], tuple(before['shape'])); apply op; "
+            "op['fseed'] / before_fseed reproduce the FORM of the arguments / of the receiver's arrays (iindex_hist.Forms)"}
 
 
 def replay_one_step(impl, rng, repro, vals=None):
     """Re-run a recorded one-step repro on the implementation; returns the Step (with .problems)."""
-    idx = build(impl, repro["before"])
+    idx = build(impl, repro["before"], Forms(repro.get("before_fseed")))
     a = densify(repro["before"])
     st = run_step(impl, idx, a, repro["op"])
     if not st.problems and not st.raised:
@@ -1022,7 +1213,7 @@ def replay_history(impl, rng, hj, own=None):
     """Re-run a recorded history (init spec + op list); returns the list of (step, prop, sig, text).
     Stops at the first step that `own` (any property if None) objects to, or when the state can no longer be
     carried on; problems of other properties are recorded and the history continues (as run_history does)."""
-    idx = build(impl, hj["init"]["spec"])
+    idx = build(impl, hj["init"]["spec"], Forms(hj["init"].get("fseed")))
     a = numpy.array(hj["init"]["array"], dtype=int).reshape(hj["init"]["shape"])
     out = []
     py_wf(idx)                 # as run_history does (matters only for defects that keep hidden state on the object)
@@ -1189,12 +1380,17 @@ def from_array_case(impl, rng, a, vals, lib_chosen_only=False):
     cm = None if lib_chosen_only else rng.choice([None, None] + (present[:1] if present else []) + [rng.choice(vals + [NEVER])])
     if cm is None and a.size == 0:
         cm = rng.choice(vals)          # documented: "No values or common value provided" is refused
+    F = Forms(rng.randrange(1 << 30) if rng.random() < 0.6 else None)
+    fa = F.array(a)
     try:
-        idx = impl.iindex.from_array(a) if cm is None else impl.iindex.from_array(a, common=cm)
+        idx = impl.iindex.from_array(fa) if cm is None else impl.iindex.from_array(fa, common=F.scalar(cm, "from_array-common"))
     except Exception as e:  # noqa
-        return None, "from_array(%r, common=%r) raised %s: %s" % (a.tolist(), cm, type(e).__name__, str(e)[:120]), cm
+        return None, "from_array(%r, common=%r) raised %s: %s  [forms: %s]" % (a.tolist(), cm, type(e).__name__, str(e)[:120], ", ".join(F.tags)), cm
+    FORM_TAGS.update(t.split("(")[0] for t in F.tags)
     spec = spec_of(idx)
     w = py_wf(idx)
+    if w and F.tags:
+        w += "  [argument forms: %s; array handed over as %s]" % (", ".join(F.tags), type(fa).__name__ if not isinstance(fa, numpy.ndarray) else "%s strides %r" % (fa.dtype, fa.strides))
     if not w and not (sane_for_densify(spec) and densify(spec).shape == a.shape and (densify(spec) == a).all()):
         w = "dense content differs from the array"
     if not w and cm is not None and idx.common != cm:
@@ -1274,8 +1470,16 @@ def from_array_mapped_case(impl, rng, a):
     info = {"kind": kind, "counts": counts is not None, "common": "library-chosen" if cm is None else ("present" if cm in present else "absent"),
             "merged_groups": len(merged), "interleaving": any(interleaves(a, g) for g in merged)}
     call = "from_array(%r, counts=%r, common=%r, mapping=%r)" % (a.tolist(), counts, cm, m)
+    fseed = rng.randrange(1 << 30) if rng.random() < 0.6 else None
+    F = Forms(fseed)
+    fa, fm = F.array(a), F.mapping(m, "from_array-mapping")
+    fcounts = None if counts is None else F.mapping(dict(counts), "from_array-counts")
+    info["fseed"] = fseed
+    if F.tags:
+        call += "  [argument forms: %s]" % ", ".join(F.tags)
+    FORM_TAGS.update(t.split("(")[0] for t in F.tags)
     try:
-        idx = impl.iindex.from_array(a, counts=None if counts is None else dict(counts), common=cm, mapping=dict(m))
+        idx = impl.iindex.from_array(fa, counts=fcounts, common=F.scalar(cm, "from_array-common"), mapping=fm)
     except Exception as e:  # noqa
         return None, "%s raised %s: %s" % (call, type(e).__name__, str(e)[:120]), info
     spec = spec_of(idx)
@@ -1288,7 +1492,7 @@ def from_array_mapped_case(impl, rng, a):
         w = "library-chosen common %r is not a most frequent mapped value" % (idx.common,)
     info["call"] = call
     info["args"] = {"array": a.tolist(), "shape": list(a.shape), "counts": None if counts is None else [[k, v] for k, v in counts.items()], "common": cm,
-                    "mapping": [[k, v] for k, v in m.items()]}
+                    "mapping": [[k, v] for k, v in m.items()], "fseed": fseed}
     return lit_fcase(mapped, mc, spec), (None if not w else "%s = %r: %s" % (call, spec, w)), info
 
 
@@ -1455,6 +1659,7 @@ def run_check(ctx, prop):
     import json
     import os
     n_hist, max_steps = SIZES[ctx.tier]
+    FORM_TAGS.clear()
     ctx.rule = ("random operation histories (<=%d steps) over well-formed 1-D/2-D indexes (10%% start 3-D, for sliced/slices1d), N<=8, <=3 columns, "
                 "values from a 5-value pool (one pool with negatives) plus a never-occurring value, commons incl. absent ones, built by "
                 "from_array or directly in random dict order; every operation of C06's quantifier with its full argument space; the real "
@@ -1465,7 +1670,16 @@ def run_check(ctx, prop):
                 "out-of-order updates; and a few one-step 'huge' cases on skewed arrays of more than 65 536 cells) is ALWAYS judged by the "
                 "model-free oracles (NumPy on the dense array, validate(True)+range/arity, common is a most frequent value); its steps are "
                 "compared inside Coq too only while their literals stay small; the oracle-only cases are counted separately "
-                "(coverage.scale_*)" % max_steps)
+                "(coverage.scale_*).  FORM of the arguments: in 60 %% of the steps every argument is handed over in another form with the same "
+                "content (coverage.argument_form_tags): sliced orders as list/tuple/range; precedence lists as list/tuple/ndarray/lists of NumPy "
+                "scalars; mappings as dict/OrderedDict/defaultdict with NumPy-scalar keys (and values except for reindexed); filtered masks as "
+                "bool ndarray / strided view / read-only; row ids of update/union/intersection/difference/set_if/iindex(...) as contiguous uint32, "
+                "non-contiguous uint32 views, read-only, int64 arrays and lists where accepted; from_array inputs in every integer dtype that holds "
+                "them, C / Fortran / strided / negative-stride / read-only / nested lists; operands of append/column_stack built the same way.  NOT "
+                "generated because the unchanged library rejects them (documented argument types): a NumPy scalar as a single sliced() order, an "
+                "ndarray as a sliced() order, list / int8 masks.  NOT generated because the unchanged library then produces an index its own validator "
+                "rejects (candidate findings, notes FORM FINDINGS): NumPy scalars as common / shift_common(v) / new_common / filtered new_length / "
+                "reindexed / from_array mapping values" % max_steps)
     ctx.trusted = list(core.STD_TRUSTED) + [
         "harness/iindex_hist.py: abstraction of a real iindex (dict order, int(row ids), common, shape) into a Model.v record literal; "
         "items of set-update operands whose value is None are dropped by the abstraction",
@@ -1669,6 +1883,8 @@ def run_check(ctx, prop):
             if pp == prop:
                 extra_problems.append((sig, text, {"huge": q, "op": op, "observed": text[:600],
                                                    "how": "a = iindex_hist.huge_array(huge); idx = iindex.from_array(a); then op; judged by NumPy / validate(True) / most-frequent (no Coq literal)"}))
+    ctx.coverage["argument_form_tags"] = dict(FORM_TAGS)
+    ctx.coverage["argument_forms_not_generated"] = sorted(FORMS_OFF)
     ctx.coverage["scale_histories"] = n_scale
     ctx.coverage["scale_steps(all oracle-judged)"] = scale_steps
     ctx.coverage["scale_steps_also_compared_in_coq"] = len(scases)
@@ -1844,7 +2060,10 @@ def replay_check(ctx, prop, path):
         a = numpy.array(g["array"], dtype=int).reshape(g["shape"])
         m = {k: v for k, v in g["mapping"]}
         try:
-            idx = impl.iindex.from_array(a, counts=None if g["counts"] is None else {k: v for k, v in g["counts"]}, common=g["common"], mapping=dict(m))
+            F = Forms(g.get("fseed"))
+            fa, fm = F.array(a), F.mapping(m, "from_array-mapping")
+            fcounts = None if g["counts"] is None else F.mapping({k: v for k, v in g["counts"]}, "from_array-counts")
+            idx = impl.iindex.from_array(fa, counts=fcounts, common=F.scalar(g["common"], "from_array-common"), mapping=fm)
             w = py_wf(idx)
             mapped = numpy.vectorize(lambda v: m[v], otypes=[int])(a) if a.size else a
             if not w and not (densify(spec_of(idx)) == mapped).all():
